@@ -153,6 +153,12 @@ def run(ctx, prop):
     if prop == "C07" and ctx.replay_case() is None:
         flush_trees(ctx)
         file_e2e(ctx)
+        # rolling files over an injected filesystem with faults and stalls (FileEmitterTrace.tla)
+        from checks import fileset_common
+        fileset_common.file_emitter_phase(ctx, "C07", clauses=("flush",))
+    if prop == "C09" and ctx.replay_case() is None:
+        from checks import fileset_common
+        fileset_common.file_emitter_phase(ctx, "C09", clauses=("bounded",))
 
     # ------------------------------------------------------------------ M: liveness (C08)
     if prop == "C08" or not ctx.quick:
